@@ -290,12 +290,37 @@ structure Env where
   /-- registrations and custom index-stage constraints of the second child store -/
   regsD : List Reg := []
   ixD : List IxReg := []
+  /-- positions (per store) of entity constraints whose vetoes apply only while the body runs for the
+      first time (a veto that depends on state outside the database) -/
+  onceP : List Nat := []
+  onceC : List Nat := []
+  onceD : List Nat := []
   deriving Repr
 
 def Env.regs (env : Env) : StoreId → List Reg
   | .P => env.regsP
   | .C => env.regsC
   | .D => env.regsD
+
+def Env.once (env : Env) : StoreId → List Nat
+  | .P => env.onceP
+  | .C => env.onceC
+  | .D => env.onceD
+
+/-- a registration as it behaves once its first-run-only vetoes are spent -/
+def Reg.spent : Reg → Reg
+  | .constraint typed _ => .constraint typed []
+  | r => r
+
+def spendAt (once : List Nat) : Nat → List Reg → List Reg
+  | _, [] => []
+  | k, r :: rest => (if once.contains k then r.spent else r) :: spendAt once (k + 1) rest
+
+/-- the environment a body meets when it runs again (bbolt's Batch re-running the function): same
+    registrations at the same positions; the first-run-only vetoes no longer apply -/
+def Env.later (env : Env) : Env :=
+  { env with regsP := spendAt env.onceP 0 env.regsP, regsC := spendAt env.onceC 0 env.regsC,
+             regsD := spendAt env.onceD 0 env.regsD }
 
 def Env.ix (env : Env) : StoreId → List IxReg
   | .P => env.ixP
@@ -389,6 +414,10 @@ inductive Fault
 inductive Step
   | op (o : Op) (fault : Fault) (swallow : Bool)
   | fail (tag : Nat)
+  /-- the caller returns an error the FIRST time the body executes this step and goes on afterwards (the
+      flag lives in the caller's closure, not in the database): a Db.Batch whose first attempt fails this
+      way succeeds when bbolt runs the function again -/
+  | fail1 (tag : Nat)
   | addCommit (tag : Nat)
   | addPre (tag : Nat) (fails : Bool)
   /-- begin / end of a nested `db.Update(ctx, …)` whose context already has a transaction: the
